@@ -425,11 +425,30 @@ func runC15(c *Ctx) {
 	if st := c.fn("blockchain/indexers", "TxCache", "setTxn"); st != nil {
 		var bad []string
 		n := 0
+		allowedSet := map[string]bool{"(*blockchain/indexers.UnspentIndex).ConnectBlock": true, "(*blockchain/indexers.TxCache).Deserialize": true}
+		var okCaller func(g *ssa.Function, depth int) bool
+		okCaller = func(g *ssa.Function, depth int) bool {
+			if allowedSet[fname(g)] {
+				return true
+			}
+			// an unexported helper that is itself only called from the connect / reload paths
+			if depth > 2 || token.IsExported(g.Name()) {
+				return false
+			}
+			up := c.staticCallers(g)
+			if len(up) == 0 {
+				return false
+			}
+			for h := range up {
+				if !okCaller(h, depth+1) {
+					return false
+				}
+			}
+			return true
+		}
 		for g := range c.staticCallers(st) {
 			n++
-			switch fname(g) {
-			case "(*blockchain/indexers.UnspentIndex).ConnectBlock", "(*blockchain/indexers.TxCache).Deserialize":
-			default:
+			if !okCaller(g, 0) {
 				bad = append(bad, fname(g))
 			}
 		}
